@@ -23,3 +23,30 @@ func psHelper(i int) int {
 func AllPlaceholders() []Target {
 	return append(Placeholders(), Target{Name: "PS0", Fn: PS0, Sig: 1}, Target{Name: "PS1", Fn: PS1, Sig: 1})
 }
+
+// Wide is a receiver too big for registers: the method-value wrapper (Wide.M-fm) copies it with
+// runtime.duffcopy before it calls the method.
+type Wide struct{ A [12]int }
+
+// M has a value receiver.
+//
+//go:noinline
+func (w Wide) M(i int) int {
+	sink += w.A[3]
+	return i*5 + w.A[0]
+}
+
+// PtrM has a pointer receiver.
+//
+//go:noinline
+func (w *Wide) PtrM(i int) int {
+	sink += w.A[4]
+	return i*7 + w.A[1]
+}
+
+var wideInst = Wide{A: [12]int{1, 2, 3, 4, 5, 6, 7, 8, 9, 10, 11, 12}}
+
+// ExtraTargets are targets given as method values (the function that is patched is the compiler's -fm wrapper).
+func ExtraTargets() []Target {
+	return []Target{{Name: "Wide.M-fm", Fn: wideInst.M, Sig: 1}, {Name: "(*Wide).PtrM-fm", Fn: (&wideInst).PtrM, Sig: 1}}
+}
